@@ -53,6 +53,9 @@ type SeqCheck struct {
 	Extra func(e *Env, cov map[string]any) ([]*Obs, error)
 }
 
+// the further families are meant to be small; a larger one is sampled in the quick tier
+const moreStateCapQuick = 250
+
 func (c *SeqCheck) Run(e *Env) (*Outcome, *Evidence, error) {
 	rng := rand.New(rand.NewSource(e.Seed))
 	thorough := e.Tier == "thorough"
@@ -124,9 +127,25 @@ func (c *SeqCheck) Run(e *Env) (*Outcome, *Evidence, error) {
 		if !thorough && c.SampleQuick > 0 && gi == 0 {
 			states = sample(states, c.SampleQuick, rng)
 		}
-		if thorough && gi == 0 && len(states) > thoroughStateCap {
+		if !thorough && gi > 0 && len(states) > moreStateCapQuick {
+			states = sample(states, moreStateCapQuick, rng)
+		}
+		if thorough && len(states) > thoroughStateCap {
 			// keeps the thorough tier of one property within about half an hour
 			states = sample(states, thoroughStateCap, rng)
+		}
+		if len(gen.AlphaOnly) > 0 {
+			for i := range states {
+				var keep []Cmd
+				for _, a := range states[i].Alpha {
+					for _, n := range gen.AlphaOnly {
+						if a.name() == n {
+							keep = append(keep, a)
+						}
+					}
+				}
+				states[i].Alpha = keep
+			}
 		}
 		o, ds, err := e.driveStates(tag, states, false, 16)
 		if err != nil {
